@@ -269,7 +269,7 @@ pub(crate) fn any_join_mode() -> JoinMode {
     }
 }
 
-//@h id=async_join props=C11,C10,C04,C07 tier=quick build=dev-eu868-noc cost=250 timeout=1800
+//@h id=async_join props=C11,C10,C07 tier=quick build=dev-eu868-noc cost=250 timeout=1800
 //@bounds one Device::join(OTAA) with arbitrary credentials, any TX timestamp < 2^31 ms, any board lead time <= 1000 ms, each window timing out or receiving a frame that is a valid JoinAccept or not, a radio fault at an arbitrary call or none: joined iff the MAC saw a valid JoinAccept, 'no join accept' iff both windows closed without one, a frame that is not a JoinAccept never ends the attempt; RX1 at 5 s and RX2 at 6 s after the end of the transmission less the lead time (the real Mac::get_rx_delay), on the windows bound to the request
 //@encodes async_device::Device::{join, rx_downlink, rx_listen, between_windows, window_complete, handle_mac_response}, Mac::get_rx_delay, From<mac::Response> for JoinResponse
 //@assumes Mac::{join_otaa, handle_rx, rx2_complete} replaced by contract stubs (facts decided by join_request_exact, join_accept_*); built without class-c (Class C: async_join_class_c)
